@@ -25,13 +25,17 @@ class Unknown(Exception):
     pass
 
 
-def _run(prog, fn, argvals, depth=0):
-    """interpret fn with concrete integer/bool arguments; returns the value of _0"""
+def _run(prog, fn, argvals, depth=0, start_bb=0, init_env=None, stop_at=None):
+    """interpret fn with concrete integer/bool arguments; returns the value of _0.
+    With start_bb / init_env / stop_at: interpret a region of the body from start_bb with the given locals and return ("stop", block)
+    when a block of stop_at is entered."""
     if depth > 4:
         raise Unknown("depth")
     env = {}
     for i, v in enumerate(argvals):
         env[i + 1] = v
+    if init_env:
+        env.update(init_env)
 
     def rd_place(p):
         l = p[0]
@@ -53,15 +57,21 @@ def _run(prog, fn, argvals, depth=0):
             return c
         p = op_place(o)
         if p is None:
+            if isinstance(o, dict) and isinstance(o.get("k"), dict) and o["k"].get("s") == "()":
+                return 0                      # the unit value of a statement-position block
             raise Unknown("operand")
         return rd_place(p)
 
-    b = 0
+    b = start_bb
     steps = 0
+    first = True
     while True:
         steps += 1
         if steps > 400:
             raise Unknown("loop")
+        if stop_at is not None and b in stop_at and not first:
+            return ("stop", b)
+        first = False
         for st in fn.stmts(b):
             if st["k"] != "assign":
                 continue
@@ -205,3 +215,20 @@ def byte_arg_of(fn):
         if s in ("u8", "&u8", "&&u8") or s.endswith("u8") and "closure" not in s and "&mut" not in s[:5]:
             return i
     return None
+
+
+def region_table(prog, fn, start_bb, place_local, make_value, stop_at):
+    """for each byte value: the block of stop_at that a walk from start_bb reaches when local `place_local` holds make_value(byte);
+    None when the region cannot be interpreted"""
+    out = []
+    for v in range(256):
+        try:
+            r = _run(prog, fn, [], start_bb=start_bb, init_env={place_local: make_value(v)}, stop_at=set(stop_at))
+        except Unknown:
+            return None
+        except Exception:
+            return None
+        if not (isinstance(r, tuple) and r[0] == "stop"):
+            return None
+        out.append(r[1])
+    return out
